@@ -475,3 +475,78 @@ Section Histories.
   Definition ingest_files (st : cstate) : list str :=
     flat_map (fun t => match t_pc t with PIngest w _ _ => [w] | _ => [] end) (c_thr st).
 End Histories.
+
+(* ------------------------------------------------------------------ cas.Proxy *)
+(* Proxy.Fetch with a cas.Memory cache, optionally behind LimitedStorage
+   (NewProxyWithLimit).  The caller is a list of Read sizes followed by Close.  The
+   io.Pipe between the TeeReader and the cache push is synchronous, so the
+   session is deterministic: the push sees the caller's non-empty reads as the
+   chunks of its reader and EOF at Close; a Write succeeds iff the push (or, after a
+   successful push, the drain loop) consumed all of it, otherwise it returns the
+   consumed prefix together with the push error (pr.CloseWithError). *)
+Section Proxy.
+  Variable H : str -> str -> str.
+
+  (* what cas.Memory.Fetch hands out: a bytes.Reader *)
+  Definition serve_script (bs : str) : list ev := match bs with [] => [] | _ => [Data bs] end.
+
+  Fixpoint rc_reads (comb : bool) (evs : list ev) (ks : list nat) : list rres :=
+    match ks with
+    | [] => []
+    | k :: r => let '(res, evs') := script_read comb evs k in res :: rc_reads comb evs' r
+    end.
+
+  Definition nonempty (s : str) : bool := match s with [] => false | _ => true end.
+  Definition writes_of (rs : list rres) : list str := filter nonempty (map fst rs).
+
+  (* Cache.Push(target, pipe reader): result, new cache, bytes taken from the pipe *)
+  Definition cache_push (limit : option Z) (m : mem) (d : desc) (ws : list str) : (option rerr * mem) * nat :=
+    let evs := map Data ws in
+    let fuel := S (S (S (ev_weight evs))) in
+    let inner (lim : option Z) :=
+      match mem_get m d with
+      | Some _ => ((Some EExists, m), 0%nat)
+      | None =>
+          let '((e, buf), v) := read_all H false true fuel (mkBase evs lim) (d_dg d) (d_sz d) in
+          let c := (length (stream evs) - length (stream (b_evs (v_base v))))%nat in
+          match e with
+          | Some e0 => ((Some e0, m), c)
+          | None => ((None, (d, buf) :: m), c)
+          end
+      end in
+    match limit with
+    | Some l => if (d_sz d >? l)%Z then ((Some ETooBig, m), 0%nat) else inner (Some (d_sz d))
+    | None => inner None
+    end.
+
+  (* what the TeeReader returns for each Read of the caller *)
+  Fixpoint tee_results (perr : option rerr) (c off : nat) (rs : list rres) : list rres :=
+    match rs with
+    | [] => []
+    | (bs, e) :: r =>
+        match bs with
+        | [] => (bs, e) :: tee_results perr c off r
+        | _ =>
+            let off' := (off + length bs)%nat in
+            match perr with
+            | None => (bs, e) :: tee_results perr c off' r
+            | Some pe =>
+                if (off' <=? c)%nat then (bs, e) :: tee_results perr c off' r
+                else (firstn (c - off) bs, Some pe) :: tee_results perr c off' r
+            end
+        end
+    end.
+
+  (* one Fetch + reads + Close: (results of the reads, result of Close, cache afterwards) *)
+  Definition proxy_fetch (limit : option Z) (stop : bool) (m : mem) (d : desc)
+             (comb : bool) (evs : list ev) (ks : list nat) : (list rres * option rerr) * mem :=
+    match mem_get m d with
+    | Some bs => ((rc_reads false (serve_script bs) ks, None), m)
+    | None =>
+        if stop then ((rc_reads comb evs ks, None), m)
+        else
+          let rs := rc_reads comb evs ks in
+          let '((pe, m'), c) := cache_push limit m d (writes_of rs) in
+          ((tee_results pe c 0 rs, pe), m')
+    end.
+End Proxy.
